@@ -454,6 +454,38 @@ pub fn ulp_flip(ea: &[String], eb: &[String]) -> bool {
     false
 }
 
+/// Class predicate `hairline-clip`: number of stroked paths whose device stroke width is <= 1 px (tiny-skia then uses its
+/// hairline rasteriser) and whose device stroke box is not inside the canvas (the line crosses a canvas / layer edge).
+pub fn hairline_crossing(tree: &usvg::Tree, w: u32, h: u32, root_ts: tiny_skia::Transform) -> usize {
+    fn walk(g: &usvg::Group, root_ts: tiny_skia::Transform, w: f32, h: f32, n: &mut usize) {
+        for node in g.children() {
+            match node {
+                usvg::Node::Group(ref c) => walk(c, root_ts, w, h, n),
+                usvg::Node::Text(ref t) => walk(t.flattened(), root_ts, w, h, n),
+                usvg::Node::Path(ref p) => {
+                    if let Some(st) = p.stroke() {
+                        let ts = root_ts.pre_concat(p.abs_transform());
+                        let (sx, sy) = ts.get_scale();
+                        if st.width().get() * sx.max(sy) <= 1.0001 {
+                            let inside = match p.abs_stroke_bounding_box().transform(root_ts) {
+                                Some(b) => b.left() >= 0.0 && b.top() >= 0.0 && b.right() <= w && b.bottom() <= h,
+                                None => false,
+                            };
+                            if !inside {
+                                *n += 1;
+                            }
+                        }
+                    }
+                }
+                _ => {}
+            }
+        }
+    }
+    let mut n = 0usize;
+    walk(tree.root(), root_ts, w as f32, h as f32, &mut n);
+    n
+}
+
 pub fn count_layers(ev: &[String]) -> usize {
     ev.iter().filter(|e| e.starts_with("{\"ev\":\"layer\"")).count()
 }
@@ -510,8 +542,9 @@ fn op_iso(payload: &str) -> String {
     let reference = if v.crossing && !f[4].starts_with("plain") { reference_crop(&ta, &v) } else { None };
     let c = cmp_pixmaps_ref(&pa, &pb, reference.as_ref());
     let mut out = format!(
-        "{{\"n0\":{},\"n1\":{},\"n8\":{},\"n32\":{},\"n64\":{},\"max\":{},\"nonblank\":{},\"layersA\":{},\"layersB\":{},\"groups\":{},\"W\":{},\"H\":{},\"crossing\":{},\"ref\":{},\"frame_bad\":{},\"ulp_flip\":{},\"ts\":[{},{},{},{},{},{}]",
-        c.n0, c.n1, c.n8, c.n32, c.n64, c.max, c.nonblank, count_layers(&ea), count_layers(&eb), ngroups, v.w, v.h, v.crossing, reference.is_some(), frame_bad(&tb, v.w, v.h, v.ts), ulp_flip(&ea, &eb),
+        "{{\"nbA\":{},\"nbB\":{},\"n0\":{},\"n1\":{},\"n8\":{},\"n32\":{},\"n64\":{},\"max\":{},\"nonblank\":{},\"layersA\":{},\"layersB\":{},\"groups\":{},\"W\":{},\"H\":{},\"crossing\":{},\"ref\":{},\"frame_bad\":{},\"ulp_flip\":{},\"hairline\":{},\"ts\":[{},{},{},{},{},{}]",
+        pa.data().chunks_exact(4).filter(|p| p[3] != 0).count(), pb.data().chunks_exact(4).filter(|p| p[3] != 0).count(),
+        c.n0, c.n1, c.n8, c.n32, c.n64, c.max, c.nonblank, count_layers(&ea), count_layers(&eb), ngroups, v.w, v.h, v.crossing, reference.is_some(), frame_bad(&tb, v.w, v.h, v.ts), ulp_flip(&ea, &eb), hairline_crossing(&tb, v.w, v.h, v.ts),
         v.ts.sx, v.ts.ky, v.ts.kx, v.ts.sy, v.ts.tx, v.ts.ty
     );
     if let Some((x, y)) = c.first {
